@@ -4,6 +4,7 @@ CONSTANTS
   Workers <- W2
   BadSig = {1, 3}
   Undecodable = {2}
+  OriFirst = TRUE
   ErrFirst = TRUE
-INVARIANTS ExecOrder FailedHasError SerialOutcome WaitGroupSane
+INVARIANTS ExecOrder FailedHasError SerialOutcome BytesReported WaitGroupSane
 PROPERTIES Termination ExecTerminates
